@@ -6,11 +6,12 @@ from . import _nodecommon
 
 ID = "C05"
 SUITES = ["init", "node", "codec"]
-LEAN_MODULES = ["VpnCloud.Proofs.C05", "VpnCloud.Proofs.C05Lockstep", "VpnCloud.Proofs.C05Agree", "VpnCloud.Proofs.C05Recover"]
+LEAN_MODULES = ["VpnCloud.Proofs.C05", "VpnCloud.Proofs.C05Lockstep", "VpnCloud.Proofs.C05Agree", "VpnCloud.Proofs.C05Recover", "VpnCloud.Proofs.GuardsUsed"]
 THEOREMS = ["VpnCloud.Proofs.C05." + n for n in ("masterKey_comm", "masterKey_comm_wf", "masterKey_inj", "halves_opposite", "initiator_success_binds", "no_second_success", "success_stage")] + [
             "VpnCloud.Proofs.C05Lockstep.lockstep_completes", "VpnCloud.Proofs.C05Lockstep.lockstep_completes_run", "VpnCloud.Proofs.C05Lockstep.ping_accepted", "VpnCloud.Proofs.C05Lockstep.pong_completes_initiator", "VpnCloud.Proofs.C05Lockstep.peng_completes_responder", "VpnCloud.Proofs.C05Lockstep.Toy.hyps_cipher", "VpnCloud.Proofs.C05Lockstep.Toy.hyps_plain"]
 THEOREMS = THEOREMS + ["VpnCloud.Proofs.C05Agree." + n for n in ('responder_success_binds', 'inv_step', 'inv_reach', 'success_at_most_once', 'attempt_agreement', 'role_switch_exclusive', 'attempt_agreement_payloads')]
 THEOREMS = THEOREMS + ["VpnCloud.Proofs.C05Recover." + n for n in ('rinv_reach', 'reachable_classes', 'reachable_combinations', 'reliable_rounds_complete', 'measure_decreases', 'abs_one_round_not_enough', 'closed_initiator_dead_end', 'give_up_is_bounded', 'completed_initiator_closes', 'Toy.start_bound_needed', 'Toy.dead_end_reachable', 'Toy.ping_lost_recovered', 'Toy.pong_lost_recovered', 'Toy.peng_lost_recovered', 'Toy.dual_open_recovered')]
+THEOREMS = THEOREMS + ["VpnCloud.Proofs.GuardsUsed.retryAllowed_boundary"]
 BATCH = 10
 SEARCH_BUDGET_S = 400
 EXPECTED_CLASSES = ["ideliver:reply", "ideliver:init", "ideliver:err:crypto", "ideliver:err:parse", "ideliver:msg"]
